@@ -124,6 +124,61 @@ def decoder_depth_rules(F, ok, rep, P):
         rep.check(P + ".wasted", "streaming decoder: LPC prediction uses the 5-bit shift read from the stream, unmodified", good, loc_of(lb))
 
 
+def partition_guard_rules(F, ok, rep, P):
+    # ---- C17.part ----------------------------------------------------------------------------------------------
+    rp = F.one("::from_reader::read_partitions") or [b for b in F.bodies if b.promoted is None and b.path.endswith("from_reader::read_partitions")]
+    if not rp:
+        rep.bad(P + ".part", "anchor:read_partitions", "src/stream.rs", "not found")
+    else:
+        b = rp[0]
+        pf = ok.path_facts(b)
+        tgt = [i for i, t in b.calls() if re.search(r"Iterator::collect$|Iterator::map$", callee_name(t))]
+        if not tgt:
+            rep.bad(P + ".part", "anchor:partition loop in read_partitions", loc_of(b), "not found")
+        else:
+            f = pf.get(tgt[0], TOP)
+            g1 = fact_match(f, "cmp", "^Le$", "Shl|partition_count", "block_size|arg")
+            g2 = any(x[0] in ("call-true", "call-false") and "is_multiple_of" in str(x) for x in (f or []))
+            g3 = fact_match(f, "cmp", "^Lt$", None, "Div")
+            rep.check(P + ".part", "structural parser: partitions only when count <= block size, exact division, and block/count > predictor order", bool(g1 and g2 and g3), loc_of(b), "",
+                      "the structural parser's partition-layout guard differs from the streaming decoder's (which needs block %% count == 0 and block/count > order); facts: %s" % fact_str(f))
+    db = F.one("decode::read_residuals::read_block")
+    if db:
+        b = db[0]
+        pf = ok.path_facts(b)
+        loops_ = [i for i, t in b.calls() if re.search(r"Iterator>::next$|Iterator::next$", callee_name(t)) or (t["f"].get("path") or "") == "std::iter::Iterator::next"]
+        f = pf.get(loops_[0], TOP) if loops_ else TOP
+        good = fact_match(f, "cmp", "^Le$", None, None) and any("is_multiple_of" in str(x) for x in (f or [])) and any(x[0] == "cmp" and x[1] == "Eq" and "len" in str(x) for x in (f or []))
+        rep.check(P + ".part", "streaming decoder: partitions only when count <= block size, exact division, and chunk count == partition count", bool(good), loc_of(b), "", "facts: %s" % fact_str(f))
+
+
+def decoder_shift_rules(F, ok, rep, P):
+    da = anchor(F, rep, P + ".wasted", "decode::read_subframe")
+    # ---- C17.wasted -----------------------------------------------------------------------------------------------
+    if da is not None:
+        # the switch on (wasted_bps > 0) dominates every Ok(()) of decode::read_subframe
+        gts = []
+        for bi, bl in enumerate(da.blocks):
+            t = bl["t"]
+            if t and t["t"] == "switch":
+                l = op_local(t["o"])
+                ds = da.defs().get(l, []) if l is not None else []
+                if len(ds) == 1 and ds[0][1] != "T" and ds[0][2]["rv"]["r"] == "bin" and ds[0][2]["rv"]["op"] in ("Gt", "Ne", "Lt") and "wasted_bps" in (backward_slice(da, ds[0][2]["rv"]["a"])["fields"] | backward_slice(da, ds[0][2]["rv"]["b"])["fields"]):
+                    gts.append(bi)
+        oks = [bi for bi, s in agg_sites(da, "std::result::Result", "Ok") if s["d"]["l"] == 0 and not s["d"]["p"]]
+        shl = [1 for c in F.closures_of(da) for _, t in c.calls() if (t["f"].get("path") or "") == "std::ops::ShlAssign::shl_assign"]
+        rep.check(P + ".wasted", "streaming decoder applies the wasted-bits shift on every subframe type", len(gts) == 1 and oks and all(da.dominates(gts[0], o) for o in oks) and len(shl) == 1, loc_of(da), "",
+                  "a subframe type returns before the wasted-bits shift: its samples differ from the structural parser's by a factor 2^wasted")
+    sd = anchor(F, rep, P + ".wasted", "stream::Subframe::decode")
+    if sd is not None:
+        shl = [c for c in F.closures_of(sd) for _, t in c.calls() if (t["f"].get("path") or "") == "std::ops::Shl::shl"]
+        rep.check(P + ".wasted", "structural expansion shifts all four subframe types by wasted_bps", len(shl) == 4, loc_of(sd), "%d shifting closures" % len(shl))
+    for path in ("decode::read_subframe", "stream::read_subframe"):
+        for b in anchor(F, rep, P + ".wasted", path, multi=True):
+            cs = [t for _, t in b.calls() if re.search(r"SignedBitCount::<MAX>::checked_sub$", callee_name(t))]
+            rep.check(P + ".wasted", "%s: effective depth = bits-per-sample - wasted bits (checked)" % path, len(cs) >= 1, loc_of(b))
+
+
 def run(ctx, rep):
     F = ctx.facts()
     ok = OkImplies(F, ctx.cg())
@@ -226,55 +281,8 @@ def run(ctx, rep):
             sk = [t for _, t in b.calls() if (t["f"].get("path") or "").endswith("BitRead::skip") and op_int(t["a"][1]) == 16]
             rep.check("C17.clone", "%s: byte alignment then 16 footer bits" % what, len(al) == 1 and len(sk) == 1, loc_of(b))
 
-    # ---- C17.part ----------------------------------------------------------------------------------------------
-    rp = F.one("::from_reader::read_partitions") or [b for b in F.bodies if b.promoted is None and b.path.endswith("from_reader::read_partitions")]
-    if not rp:
-        rep.bad("C17.part", "anchor:read_partitions", "src/stream.rs", "not found")
-    else:
-        b = rp[0]
-        pf = ok.path_facts(b)
-        tgt = [i for i, t in b.calls() if re.search(r"Iterator::collect$|Iterator::map$", callee_name(t))]
-        if not tgt:
-            rep.bad("C17.part", "anchor:partition loop in read_partitions", loc_of(b), "not found")
-        else:
-            f = pf.get(tgt[0], TOP)
-            g1 = fact_match(f, "cmp", "^Le$", "Shl|partition_count", "block_size|arg")
-            g2 = any(x[0] in ("call-true", "call-false") and "is_multiple_of" in str(x) for x in (f or []))
-            g3 = fact_match(f, "cmp", "^Lt$", None, "Div")
-            rep.check("C17.part", "structural parser: partitions only when count <= block size, exact division, and block/count > predictor order", bool(g1 and g2 and g3), loc_of(b), "",
-                      "the structural parser's partition-layout guard differs from the streaming decoder's (which needs block %% count == 0 and block/count > order); facts: %s" % fact_str(f))
-    db = F.one("decode::read_residuals::read_block")
-    if db:
-        b = db[0]
-        pf = ok.path_facts(b)
-        loops_ = [i for i, t in b.calls() if re.search(r"Iterator>::next$|Iterator::next$", callee_name(t)) or (t["f"].get("path") or "") == "std::iter::Iterator::next"]
-        f = pf.get(loops_[0], TOP) if loops_ else TOP
-        good = fact_match(f, "cmp", "^Le$", None, None) and any("is_multiple_of" in str(x) for x in (f or [])) and any(x[0] == "cmp" and x[1] == "Eq" and "len" in str(x) for x in (f or []))
-        rep.check("C17.part", "streaming decoder: partitions only when count <= block size, exact division, and chunk count == partition count", bool(good), loc_of(b), "", "facts: %s" % fact_str(f))
-
-    # ---- C17.wasted -----------------------------------------------------------------------------------------------
-    if da is not None:
-        # the switch on (wasted_bps > 0) dominates every Ok(()) of decode::read_subframe
-        gts = []
-        for bi, bl in enumerate(da.blocks):
-            t = bl["t"]
-            if t and t["t"] == "switch":
-                l = op_local(t["o"])
-                ds = da.defs().get(l, []) if l is not None else []
-                if len(ds) == 1 and ds[0][1] != "T" and ds[0][2]["rv"]["r"] == "bin" and ds[0][2]["rv"]["op"] in ("Gt", "Ne", "Lt") and "wasted_bps" in (backward_slice(da, ds[0][2]["rv"]["a"])["fields"] | backward_slice(da, ds[0][2]["rv"]["b"])["fields"]):
-                    gts.append(bi)
-        oks = [bi for bi, s in agg_sites(da, "std::result::Result", "Ok") if s["d"]["l"] == 0 and not s["d"]["p"]]
-        shl = [1 for c in F.closures_of(da) for _, t in c.calls() if (t["f"].get("path") or "") == "std::ops::ShlAssign::shl_assign"]
-        rep.check("C17.wasted", "streaming decoder applies the wasted-bits shift on every subframe type", len(gts) == 1 and oks and all(da.dominates(gts[0], o) for o in oks) and len(shl) == 1, loc_of(da), "",
-                  "a subframe type returns before the wasted-bits shift: its samples differ from the structural parser's by a factor 2^wasted")
-    sd = anchor(F, rep, "C17.wasted", "stream::Subframe::decode")
-    if sd is not None:
-        shl = [c for c in F.closures_of(sd) for _, t in c.calls() if (t["f"].get("path") or "") == "std::ops::Shl::shl"]
-        rep.check("C17.wasted", "structural expansion shifts all four subframe types by wasted_bps", len(shl) == 4, loc_of(sd), "%d shifting closures" % len(shl))
-    for path in ("decode::read_subframe", "stream::read_subframe"):
-        for b in anchor(F, rep, "C17.wasted", path, multi=True):
-            cs = [t for _, t in b.calls() if re.search(r"SignedBitCount::<MAX>::checked_sub$", callee_name(t))]
-            rep.check("C17.wasted", "%s: effective depth = bits-per-sample - wasted bits (checked)" % path, len(cs) >= 1, loc_of(b))
+    partition_guard_rules(F, ok, rep, "C17")
+    decoder_shift_rules(F, ok, rep, "C17")
 
     decoder_depth_rules(F, ok, rep, "C17")
 
